@@ -252,6 +252,7 @@ package memfs
 
 //@ func (*fileNode).delete
 //@   requires[C08] wheld(fn.mu)
+//@   requires fn.nlink > -9223372036854775807
 //@   ensures[C05] fn.nlink == old(fn.nlink) - 1
 //@   modifies fn.nlink, fn.data
 //@ func (*dirNode).delete
